@@ -106,17 +106,18 @@ def cargo_harness(ctx):
     shutil.copytree(REPO / "rust", work, ignore=shutil.ignore_patterns("target"))
     (work / "tests").mkdir(exist_ok=True)
     shutil.copy(VERIF / "rust_harness" / "pmap_harness.rs", work / "tests" / "pmap_harness.rs")
-    env = dict(os.environ, CARGO_NET_OFFLINE="true", PYO3_PYTHON="/venv/bin/python")
+    env = dict(os.environ, CARGO_NET_OFFLINE="true", PYO3_PYTHON="/venv/bin/python", SEDPACK_VERIF="1")   # the hook records channel operations
     p = subprocess.run(["cargo", "test", "--release", "--offline", "--test", "pmap_harness", "--target-dir", str(rustbuild.CACHE / "target-tests"),
                         "--", "--nocapture", "--test-threads=1"], cwd=work, env=env, capture_output=True, text=True, timeout=2400)
     lines = [json.loads(l[5:]) for l in p.stdout.split("\n") if l.startswith("PMAP ")]
-    return lines, p.returncode, (p.stdout + p.stderr)[-1500:]
+    traces = [json.loads(l[10:]) for l in p.stdout.split("\n") if l.startswith("PMAPTRACE ")]
+    return lines, traces, p.returncode, (p.stdout + p.stderr)[-1500:]
 
 
 def run(ctx):
     rng = ctx.rng("c15")
     # ---- parallel_map driven directly
-    lines, rc, tail = cargo_harness(ctx)
+    lines, traces, rc, tail = cargo_harness(ctx)
     if not lines:
         raise RuntimeError(f"cargo harness produced nothing (rc={rc}): {tail}")
     kinds = collections.Counter(l["kind"] for l in lines)
@@ -147,6 +148,38 @@ def run(ctx):
                 ctx.report(dict(sig, what="threads-alive"), f"{l['threads_alive']} worker threads still alive after dropping the iterator (n={l['n']}, threads={l['threads']}, k={l['k']})", {"case": l})
             if rep["alive"] != 0 or [x * 10 for x in rep["out"]][:l["k"]] != l["out"]:
                 corr_bad.append({"case": l, "model": rep})
+    # ---- correspondence at the level of channel operations: the order recorded by the SEDPACK_VERIF hook (worker recv /
+    # worker send / consumer next / drop, under the real thread interleaving) is accepted by M-PMAP and leaves the model with
+    # the output the real iterator produced.  After `drop` the trace is cut (whether a pending send still succeeds is a race
+    # the model resolves one way; thread exit after drop is decided by the thread count above).
+    treqs, tmeta = [], []
+    for t in traces:
+        labs = []
+        for tok in t["trace"].split():
+            k, w = tok[0], int(tok[1:])
+            if k == "d":
+                labs.append(["d"]); break
+            labs.append(["n"] if k == "n" else [k, w])
+        treqs.append({"m": "pmaptrace", "threads": t["threads"], "n": t["n"], "trace": labs}); tmeta.append((t, labs))
+    treps = lean.driver(treqs) if treqs else []
+    trace_bad, trace_events = [], 0
+    if traces and not all(t["hook"] for t in traces):
+        trace_bad.append({"why": "the SEDPACK_VERIF hook did not record (enabled() is false)"})
+    for (t, labs), rep in zip(tmeta, treps):
+        trace_events += len(labs)
+        want = list(range(t["n"])) if t["kind"] == "full" else list(range(min(t["k"], t["n"])))
+        if not rep["ok"]:
+            trace_bad.append({"case": {k: t[k] for k in ("kind", "n", "threads", "k")}, "refused_at": rep["at"], "label": labs[rep["at"]],
+                              "context": labs[max(0, rep["at"] - 6): rep["at"] + 1]})
+        elif rep["out"][:len(want)] != want or (t["kind"] == "full" and (rep["out"] != want or not rep["ended"])):
+            trace_bad.append({"case": {k: t[k] for k in ("kind", "n", "threads", "k")}, "model_out": rep["out"], "ended": rep["ended"]})
+    if (trace_bad or not traces) and not ctx.violations:
+        ctx.report({"kind": "correspondence-trace", "level": "parallel_map"},
+                   f"M-PMAP does not accept the recorded order of channel operations: {json.dumps(trace_bad[0] if trace_bad else 'no trace recorded')[:300]}",
+                   {"correspondence": "M-PMAP accepts(recorded r/s/n/d order of parallel_map)", "theorem": "Sedpack.PMap.C15_output_in_input_order / C15_one_outstanding",
+                    "cases": trace_bad[:3]}, name="corr-trace", nofail=True)
+    ctx.cov["channel_traces_replayed"] = len(traces) - len([b for b in trace_bad if "case" in b])
+    ctx.cov["channel_events_replayed"] = trace_events
     # ---- the extension vs the Python reader
     cases = []
     for i in range(ctx.pick(3, 8)):
